@@ -145,6 +145,10 @@ def run_check(prop, tier, seed):
         pool.shutdown(wait=False, cancel_futures=True)
     violations = res.get("violations", [])
     known = load_known()
+    if os.path.isdir(paths.REPLAYS):
+        for f in os.listdir(paths.REPLAYS):   # replay files belong to the run that wrote them
+            if f.startswith(prop + "-") and f.endswith(".json"):
+                os.unlink(os.path.join(paths.REPLAYS, f))
     new, printed_known, unreproduced = [], [], []
     seen_sig = set()
     for v in violations:
@@ -164,7 +168,8 @@ def run_check(prop, tier, seed):
         if ok:
             new.append((v, p))
         else:
-            unreproduced.append({"replay": p, "output": out[-1500:], "invariant": v.get("invariant")})
+            unreproduced.append({"replay": p, "output": out[-1500:], "invariant": v.get("invariant"),
+                                 "observed": str(v.get("observed"))[:300]})
     for kf in {json.dumps(k, sort_keys=True): k for k in printed_known}.values():
         print("KNOWN-FINDING: property=%s %s" % (prop, kf.get("what", kf.get("invariant"))))
     for v, p in new:
